@@ -13,6 +13,76 @@ def TABLES():
     out.append('-- initial serial of a pool / of GlobalSerial')
     out.append('def initialSerial : Int := %d' % type(process.GlobalSerial)().serial)
     out.extend(accept_order())
+    out.extend(owner_test())
+    return out
+
+
+def owner_test():
+    """how `handle_rejected` decides "this is one of our processes" before it re-buffers the event: by object identity,
+    by `==` (Subprocess.__eq__ compares priorities) or by the process *name* (names are unique within a group only).
+    The model's `owns` interprets this table; anything else is an extraction error."""
+    import ast, os
+    from extract import REPO, find_func
+    func = find_func(ast.parse(open(os.path.join(REPO, 'supervisor/process.py')).read()), 'EventListenerPool.handle_rejected')
+    out = ['inductive OwnerTest where', '  | identity', '  | equality', '  | name', 'deriving DecidableEq, Repr']
+    # local aliases:  process = event.process ; procs = self.processes.values()
+    alias = {}
+    for st in func.body:
+        if isinstance(st, ast.Assign) and len(st.targets) == 1 and isinstance(st.targets[0], ast.Name):
+            alias[st.targets[0].id] = ast.unparse(st.value)
+
+    def src(e):
+        t = ast.unparse(e)
+        return alias.get(t, t)
+
+    def classify(test):
+        if isinstance(test, ast.Compare) and len(test.ops) == 1 and isinstance(test.ops[0], ast.In):
+            l, r = src(test.left), src(test.comparators[0])
+            if l == 'event.process' and r in ('self.processes.values()', 'list(self.processes.values())'):
+                return 'equality'
+            if l in ('event.process.config.name', 'process.config.name') and r in ('self.processes', 'self.processes.keys()'):
+                return 'name'
+        if isinstance(test, ast.Call) and ast.unparse(test.func) == 'any' and len(test.args) == 1 and \
+                isinstance(test.args[0], (ast.GeneratorExp, ast.ListComp)) and len(test.args[0].generators) == 1:
+            g = test.args[0].generators[0]
+            if not g.ifs and isinstance(g.target, ast.Name) and src(g.iter) in ('self.processes.values()', 'list(self.processes.values())'):
+                v, e = g.target.id, test.args[0].elt
+                if isinstance(e, ast.Compare) and len(e.ops) == 1:
+                    pair = {src(e.left), src(e.comparators[0])}
+                    if pair == {'event.process', v}:
+                        if isinstance(e.ops[0], ast.Is):
+                            return 'identity'
+                        if isinstance(e.ops[0], ast.Eq):
+                            return 'equality'
+                    if isinstance(e.ops[0], ast.Eq) and pair == {'event.process.config.name', v + '.config.name'}:
+                        return 'name'
+        return None
+
+    # the loop form:  for p in self.processes.values(): if p is process: self._acceptEvent(...)
+    for st in func.body:
+        if isinstance(st, ast.For) and isinstance(st.target, ast.Name) and not st.orelse and len(st.body) == 1 and \
+                src(st.iter) in ('self.processes.values()', 'list(self.processes.values())') and isinstance(st.body[0], ast.If):
+            inner = st.body[0]
+            e = inner.test
+            if isinstance(e, ast.Compare) and len(e.ops) == 1 and {src(e.left), src(e.comparators[0])} == {'event.process', st.target.id} and \
+                    any(isinstance(n, ast.Call) and ast.unparse(n.func) == 'self._acceptEvent' for n in ast.walk(inner)):
+                k = 'identity' if isinstance(e.ops[0], ast.Is) else 'equality' if isinstance(e.ops[0], ast.Eq) else None
+                if k and sum(1 for n in ast.walk(func) if isinstance(n, ast.Call) and ast.unparse(n.func) == 'self._acceptEvent') == 1:
+                    out.append('-- EventListenerPool.handle_rejected:%d  for %s in %s: if %s' % (st.lineno, st.target.id, ast.unparse(st.iter), ast.unparse(e)))
+                    out.append('def rejectedOwnerTest : OwnerTest := .%s' % k)
+                    return out
+    guards = [st for st in func.body if isinstance(st, ast.If) and not st.orelse and
+              any(isinstance(n, ast.Call) and ast.unparse(n.func) == 'self._acceptEvent' for n in ast.walk(st))]
+    others = [n for st in func.body if st not in guards for n in ast.walk(st)
+              if isinstance(n, ast.Call) and ast.unparse(n.func) == 'self._acceptEvent']
+    kind = classify(guards[0].test) if len(guards) == 1 and not others else None
+    out.append('-- EventListenerPool.handle_rejected:%s  %s' % (
+        guards[0].lineno if guards else func.lineno, ast.unparse(guards[0].test) if guards else '(no guarded _acceptEvent)'))
+    if kind:
+        out.append('def rejectedOwnerTest : OwnerTest := .%s' % kind)
+    else:
+        # no definition: the model (Model/Pool.lean `owns`) no longer builds, which the check reports as a broken proof
+        out.append('-- rejectedOwnerTest  UNTRANSLATED (handle_rejected: expected one `if <owner test>: self._acceptEvent(...)`)')
     return out
 
 
